@@ -481,6 +481,7 @@ impl Checker {
         crate::oracle2::c12_check(self, sim, false);
         crate::oracle2::c07_check(self, sim);
         crate::oracle2::c11_scan(self, sim);
+        crate::oracle2::c06_progress(self, sim);
         self.refresh_script_progress(sim);
         if self.flag("audit_every_event") {
             self.audit(sim, "step");
